@@ -166,14 +166,15 @@ Proof.
 Qed.
 
 (* the property as the checker evaluates it, on the model's own output *)
-Theorem spec_holds_model : forall manual p extra o x s,
+Theorem spec_holds_model : forall manual p extra o x s opts,
   run_top E C fault manual p extra (init_st []) = (o, x, s) ->
   scoped [] p = true -> plain_prog p = true ->
   x_rb (s_fl s) = false -> x_drop (s_fl s) = false ->
   spec_holds (mk_case manual p extra [] C None o x [] (s_db s)
-                (fst (pool E (rev (s_txlog s)))) (snd (pool E (rev (s_txlog s)))) (rev (s_ops s))) = true.
+                (fst (pool E (rev (s_txlog s)))) (snd (pool E (rev (s_txlog s)))) (rev (s_ops s))
+                opts (begin_opt opts) None) = true.
 Proof.
-  intros manual p extra o x s H Hsc Hnc Hrb Hdr.
+  intros manual p extra o x s opts H Hsc Hnc Hrb Hdr.
   unfold spec_holds; cbn [o_in_use o_open_tx o_top o_ops o_table c_cfg c_prog c_extra o_extra].
   rewrite (released _ _ _ _ _ _ _ H). cbn [fst snd Z.eqb andb].
   destruct (top_spec E savepoint_pushes rollback_to_exact C savepoints hard_commit fault _ _ _ _ _ _ _ H Hsc Hnc Hrb Hdr) as [Hat [Ht [Hu Hx]]].
